@@ -17,6 +17,9 @@ func H_C04(tbl, router, stage int) {
 	}
 	q := vReq{method: "GET"}
 	q.path = nondetString("path", pathCap)
+	if vMinSegs > maxSeg {
+		maxSeg = vMinSegs // the table has longer templates than the usual bound
+	}
 	verifAssume(strings.Count(strings.Trim(q.path, "/"), "/") < maxSeg)
 	vKnownRouting(q, router)
 	o := h.run(c, q)
